@@ -74,6 +74,8 @@ def apply_extras(scn, doc):
     b = doc.get("_bounds")
     if b:
         scn.scenario_dict["address_space_bounds"] = tuple(b)
+    for name, lvl in (doc.get("_req_access") or {}).items():
+        scn.exploits[name]["req_access"] = lvl
 
 
 def make_env(scn, fully_obs=False, flat_actions=True, flat_obs=True):
@@ -155,6 +157,19 @@ def gen_params(draw, max_hosts=12, max_services=5, small=True):
         p["address_space_bounds"] = (nsub + draw(st.integers(0, 4)),
                                      5 + draw(st.integers(0, 4)))
     p["seed"] = draw(st.integers(0, 2**31 - 1))
+    return p
+
+
+@st.composite
+def gen_params_large(draw):
+    """40-70 hosts: tensors beyond 1000 entries, many subnets"""
+    p = draw(gen_params(max_hosts=12, max_services=4))
+    p["num_hosts"] = draw(st.integers(40, 70))
+    p.pop("address_space_bounds", None)
+    p["uniform"] = False
+    p.setdefault("alpha_H", 2.0)
+    p.setdefault("alpha_V", 2.0)
+    p.setdefault("lambda_V", 1.0)
     return p
 
 
